@@ -160,7 +160,7 @@ def instances(tier, rng):
         for p in (cross if not quick else rng.sample(cross, min(2, len(cross)))):
             es = C.route_edges(p)
             for cons in ([es], [[es[0], es[-1]]]):
-                for cls in ("MinFlowDecomp", "kFlowDecomp", "MinPathCover"):
+                for cls in ("MinFlowDecomp", "kFlowDecomp", "MinPathCover", "kMinPathError", "kLeastAbsErrors"):
                     for var in ({"cov": rng.choice([[3, 4], [2, 3], [1, 2]])},
                                 {"covlen": rng.choice([[17, 20], [3, 4], [7, 10]]),
                                  "elen": [rng.choice([1, 1, 2, 8]) for _ in u["edges"]]},
@@ -173,7 +173,7 @@ def instances(tier, rng):
                         else:
                             r["wt"] = "int"
                         r["cons"] = cons
-                        if cls == "kFlowDecomp":
+                        if cls in ("kFlowDecomp", "kMinPathError", "kLeastAbsErrors"):
                             r["k"] = len(u["proutes"])
                         else:
                             r["expect_solved"] = True
